@@ -1174,6 +1174,14 @@ def check_fresh_spec(ctx, env, c, fresh_text):
         bad = got != lst([wid(o) for _, o in exp])
         if c['ridx'] and fresh_text.split('/')[2] != want:
             bad = True
+        if bad and c['rsys']:
+            # in file order: do the two differ in messages of types with measurement details only?
+            det = details_types(env.F)
+            rest_want = [wid(o) for tt, o in exp if tt not in det]
+            rest_got = [x for x in (got.split('.') if got != '-' else [])
+                        if not (x.startswith('d') and W in det) and not (x.isdigit() and int(x) < len(env.spec) and env.spec[int(x)][0] in det)]
+            if rest_got == rest_want:
+                bad_types = set(tt for tt, _ in exp if tt in det) or set(det)
     else:
         for part in fresh_text.split('|')[1:]:
             f = part.split('/')
